@@ -193,7 +193,7 @@ func init() {
 		Rule: "for each of the 41 built-in functions every argument count from 0 to max+1 and the full Cartesian product of the typed value alphabet over the argument positions is called once with literal arguments and once through document fields " +
 			"(expression-reference functions: every array of their menu x every expression-reference form, incl. a let-bound variable and non-& arguments) and compared with the reference model's value / error category; " +
 			"non-trivial = a non-null, non-empty, non-error value; distinct_nontrivial counts distinct such outcomes",
-		Phases: []core.Phase{{Name: "calls", Build: "instr", Fn: c02Run}},
+		Phases: []core.Phase{{Name: "calls", Build: "instr", Fn: c02Run}, {Name: "compose", Build: "instr", Fn: composeRun("C02", 2)}},
 		Judge:  c02Judge,
 		Assumptions: []string{
 			"the oracle is the per-function table of DESIGN.md appendix A as implemented in mc/ref/funcs.go; it abstains where the specification is silent (listed in abstentions_by_reason)",
@@ -268,6 +268,9 @@ func diffPoint(prop string, r *core.Run, c *compiled, shape string, d doc) *core
 }
 
 func c02Judge(r *core.Run, phase string, pt map[string]any) *core.Violation {
+	if phase == "compose" {
+		return composeJudge(r, "C02", pt)
+	}
 	core.EnableTicks(c02TickBudget)
 	return diffPoint("C02", r, prepare(pstr(pt, "expr")), pstr(pt, "shape"), mkDoc(pstr(pt, "doc")))
 }
